@@ -152,7 +152,7 @@ def grammar_texts():
     # the combined decoder must classify by SHAPE, not by length: durations and date / date-time texts of every length 2 .. 24
     seen_len = set()
     for sign in ("", "+", "-"):
-        for d in (None, 1, 12, 123, 1234):
+        for d in (None, 1, 12, 123, 1234, 12345, 123456, 1234567, 12345678):   # with 5-7 digits the T of the time part sits where a DATE-TIME has it
             for h, m, sec in ((None, None, None), (1, None, None), (10, 30, None), (10, 30, 15), (None, 5, None), (None, None, 7), (100000, None, None),
                               (None, None, 100000000000), (1, 2, 3), (None, 30, 15)):
                 if d is None and h is None and m is None and sec is None:
